@@ -86,7 +86,8 @@ func (c13) Run(c *run.Ctx, phase, idx int) {
 		}
 	}
 	big := 0
-	if idx%8 == 5 && (ref.HasProps(t) || t == ref.TPublish) {
+	// (idx+idx/16: cases are dealt out to the workers by idx mod 16; the expensive ones must not all land on two of them)
+	if (idx+idx/16)%8 == 5 && (ref.HasProps(t) || t == ref.TPublish) {
 		// the large messages a broker fans out: frames of 20 KiB .. 1 MiB
 		// (size thresholds for pooled or kept buffers sit here, far above
 		// what the small packets reach)
